@@ -921,7 +921,7 @@ func c28GenResolve(r *Rand) (string, []c28NEnt) {
 	for _, n := range names {
 		switch r.Intn(8) {
 		case 0, 1, 2, 3:
-			ents = append(ents, c28NEnt{n, "n", r.Pick(append(names, "zz"))}) // cycles, self references, dangling
+			ents = append(ents, c28NEnt{n, "n", r.Pick(append(names, "zz", ""))}) // cycles, self references, dangling, empty target
 		case 4:
 			ents = append(ents, c28NEnt{n, "s", "v"})
 		case 5:
